@@ -1249,6 +1249,9 @@ func areaSweeper(r *Rng, n int, dir string) (*AreaOut, error) {
 		return nil, err
 	}
 	swObserveLivelock(out)
+	if err := sweeperWiring(out); err != nil {
+		return nil, err
+	}
 	out.Cases = len(cases)
 	out.Distinct = len(nontriv)
 	for i := 0; i < 3 && i < len(cases); i++ {
